@@ -67,6 +67,18 @@ def gen_base(rng, want):
             a1["kind"], a1["parts"], a1["flag"] = a0["kind"], list(a0["parts"]), a0["flag"]
             a1["spec"] = a0["spec"] + rng.choice(["", ";e=0", ";e=0.25"])
             a1["argv"] = [a1["flag"], f"{a1['name']}={a1['spec']}"]
+    if rng.random() < want.get("odd_names_p", 0.0):
+        # adapter names are free text: punctuation that is legal in file names, and names that differ only in it
+        ch = rng.choice([":", "|", "+", ".", "-", "~", ",", "@"])
+        for side in (sc.ads1, sc.ads2):
+            for j, a in enumerate(side):
+                base_name = a["name"] if j == 0 or rng.random() < 0.5 else side[0]["name"].replace(ch, "_")
+                if j == 0 or base_name == a["name"]:
+                    nm = a["name"][:2] + ch + a["name"][2:]
+                else:
+                    nm = base_name          # collides with the first one once punctuation is mapped to '_'
+                a["argv"] = [a["flag"], a["argv"][1].replace(a["name"] + "=", nm + "=", 1)]
+                a["name"] = nm
     sc.times = 1 if sc.pair_adapters else rng.choice([1, 1, 1, 2])
     sc.mods = []
     if rng.random() < 0.15:
